@@ -383,7 +383,9 @@ def gc2(F, R):
                   "group destruction is not restricted to the unread counter having reached exactly 0 after this read",
                   detail)
         ex = extra_guards(e.facts, lambda f: f in (fa, fb, fc) or (f[0] in ("in", "notin") and (is_pers_discr_of(f[1], reader) or is_tag_of(f[1], reader)))
-                          or (f[0] in ("in", "notin") and slot_of(strip_load(f[1]), "Sodg::stores") is not None), e.body, e.site)
+                          or (f[0] in ("in", "notin") and slot_of(strip_load(f[1]), "Sodg::stores") is not None)
+                          # "unless it is absent already": skipping the write of 0 where the tag is 0 changes nothing
+                          or (f[0] == "notin" and f[2] == frozenset([0]) and is_tag_of(f[1], e.x)), e.body, e.site)
         if fa and fb and fc and ex:
             R.bad("GC2", "GC2/Sodg::data/destroy-extra-condition", e.where(),
                   "a member of the dying group is removed only under an additional condition (%s): part of the group survives its "
